@@ -36,6 +36,7 @@ ADMISSIBLE = {
     "multicategorical": ["MultiCategoricalEmbeddingEncoder", "LinearModelEncoder"],
     "timestamp": ["TimestampEncoder", "LinearModelEncoder"],
     "embedding": ["LinearEmbeddingEncoder", "LinearModelEncoder"],
+    "text_tokenized": ["LinearModelEncoder"],
 }
 # documented strategy/stype table (property text of C13)
 NA_ADMISSIBLE = {
@@ -44,6 +45,7 @@ NA_ADMISSIBLE = {
     "multicategorical": [None, "ZEROS"],
     "timestamp": [None, "OLDEST_TIMESTAMP", "NEWEST_TIMESTAMP", "MEDIAN_TIMESTAMP"],
     "embedding": [None],
+    "text_tokenized": [None],
 }
 ALL_NA = ["MEAN", "MOST_FREQUENT", "ZEROS", "OLDEST_TIMESTAMP", "NEWEST_TIMESTAMP", "MEDIAN_TIMESTAMP"]
 # every form a shape-preserving post-module takes: none, out-of-place, IN-PLACE (the module writes into the
@@ -129,6 +131,13 @@ class CellModel(torch.nn.Module):
         self.lin = torch.nn.Linear(self.in_dim, width)
 
     def forward(self, x):
+        if isinstance(x, dict):                 # text_tokenized: {input_ids, attention_mask} of [B, 1] ragged
+            ids = x["input_ids"]
+            cnt = (ids.offset[1:] - ids.offset[:-1]).to(torch.get_default_dtype())
+            tot = torch.stack([ids[r, 0].sum() if ids.num_rows else ids.values.sum() for r in range(ids.num_rows)]) \
+                if ids.num_rows else cnt
+            v = (cnt + 0.01 * tot.to(cnt.dtype)).reshape(ids.num_rows, 1, 1)
+            return self.lin(v)
         if isinstance(x, MultiEmbeddingTensor):
             v = x.values.reshape(x.num_rows, 1, self.in_dim)
         elif isinstance(x, MultiNestedTensor):
@@ -173,7 +182,7 @@ def build_encoder(spec, channels, stats_list, st, col_names=None, emb_dims=None,
         width = kw.pop("width", 3)
         cfg = {}
         for j, name in enumerate(col_names):
-            if st == "numerical" or st == "categorical" or st == "multicategorical":
+            if st in ("numerical", "categorical", "multicategorical", "text_tokenized"):
                 d = 1
             elif st == "timestamp":
                 d = 7
